@@ -241,7 +241,9 @@ func writeCompoundOpInfix(w io.Writer, c Compound, opts *WriteOptions, env *Env,
 func writeCompoundFunctionalNotation(w io.Writer, c Compound, opts *WriteOptions, env *Env) error {
 	ew := errWriter{w: w}
 	opts = opts.withRight(operator{})
-	_ = c.Functor().WriteTerm(&ew, opts, env)
+	fopts := *opts
+	fopts.ops = nil // The functor isn't an operand. It mustn't be bracketed even if it's an operator.
+	_ = c.Functor().WriteTerm(&ew, &fopts, env)
 	_, _ = fmt.Fprint(&ew, "(")
 	opts = opts.withLeft(operator{}).withPriority(999)
 	opts.maxDepth--
